@@ -272,7 +272,7 @@ impl Property for C17 {
             Case::Ast { expr } => {
                 let r = render(expr);
                 let text = &r.text;
-                let g = match build(text) {
+                let g = match build_either(text) {
                     Ok(Ok(g)) => g,
                     Ok(Err(e)) => {
                         st.count("ast_not_built");
